@@ -65,5 +65,36 @@ def run (j : Json) : Except String Json := do
       pure (Json.arr (r.map (fun o => match o with | none => Json.str "inf" | some q => jF q)).toArray)
     | _ => throw s!"unknown kind {kind} for Float mode"
 
-def handlers : List (String × Handler) := [("c09.run", run)]
+/-- c09.geomcode: `GeometricInterrupts` as the code computes it (`Interrupts.runGeomCode`), exact arithmetic.
+{"scale","factor","sq","sq_inv","eps": rationals, "t0", "queries":[..], "exps":[int..]}  -- one oracle value
+(= `np.ceil(np.log(t_min/scale)/np.log(factor))`, recovered by the harness from the real answer) per call,
+`initialize(t0)` first.  `sq`, `sq_inv` are the doubles `factor**0.5`, `factor**-0.5`.
+answer: {"consts_ok": the hypotheses `GeomConsts` of the theorems hold for (factor, sq, sq_inv, eps),
+         "calls": [[t_min, answer, upper, lower]..]}  with upper/lower the two halves of `CeilLogOK`:
+         `t_min/scale ≤ f^e*(1+eps)`, `f^(e-1) < (t_min/scale)*(1+eps)` -/
+def geomCode (j : Json) : Except String Json := do
+  let scale ← fldQ j "scale"
+  let f ← fldQ j "factor"
+  let sq ← fldQ j "sq"
+  let sqInv ← fldQ j "sq_inv"
+  let eps ← fldQ j "eps"
+  let t0 ← fldQ j "t0"
+  let qs ← fldQs j "queries"
+  let es ← getL getI (← fld j "exps")
+  let ts := t0 :: qs
+  if es.length ≠ ts.length then throw "one oracle value per call expected"
+  let calls := List.zip ts es
+  let r := runGeomCode scale f sq sqInv none calls
+  let constsOk : Bool := decide (1 < f) && decide (0 ≤ eps) && decide (1 + eps < sq) &&
+    decide (sq * (1 + eps) ≤ f) && decide (1 + eps < sqInv * f) && decide (sqInv * (1 + eps) ≤ 1) &&
+    decide (0 < scale)
+  let rows := (List.zip calls r).map (fun (p : (Rat × Int) × (Rat × Rat)) =>
+    let e := p.1.2
+    let x := p.2.1 / scale
+    let up : Bool := decide (x ≤ powInt f e * (1 + eps))
+    let lo : Bool := decide (powInt f (e - 1) < x * (1 + eps))
+    Json.arr #[jQ p.2.1, jQ p.2.2, toJson up, toJson lo])
+  pure (Json.mkObj [("consts_ok", toJson constsOk), ("calls", Json.arr rows.toArray)])
+
+def handlers : List (String × Handler) := [("c09.run", run), ("c09.geomcode", geomCode)]
 end PdeVerif.Drv.C09
